@@ -14,6 +14,7 @@
 -/
 import NibiruModel.Determinism
 import Generated.MapRanges
+import Generated.Facts
 
 namespace Nibiru.Determinism
 open Nibiru List
@@ -26,6 +27,11 @@ theorem fact_C01_goroutines_and_clock :
 /-- the only leaking site is `set.Set.ToSlice`, and every consumer that persists its result sorts it -/
 theorem fact_C01_leak_is_contained :
     (expectedSites.filter (fun s => s.2 = .leak)).map (·.1) = ["x/common/set:Set[T].ToSlice:set"] := by decide
+
+/-- every literal comparator handed to sort.Slice in the consensus packages compares its two indices (a comparator that
+    compares an element with itself leaves the slice in iteration order) -/
+theorem fact_C01_sort_comparators :
+    Generated.sortComparators = [("x/evm/statedb:Storage.SortedKeys", true), ("x/evm/statedb:journal.sortedDirties", true)] := by decide
 
 /-! ### sorted -/
 
